@@ -816,12 +816,22 @@ package tree
 //@   ensures [index_maps_each_name_to_the_node_carrying_it] result1 == nil ==> result0 != nil && result0.index != nil && (forall s string :: {has(result0.index, s)} has(result0.index, s) ==> result0.index[s] != nil && result0.index[s].name == s)
 
 // SortedTips: the tips (Tips) sorted by name in fresh storage (sort.Slice: trusted permutation)
+// SortedTips (property C18): the list of this tree's tips, reordered in place by a comparison of the names of the two
+// tips being compared (the order of the result is then a function of the names, not of the traversal)
+//@ func (*tree.Tree).SortedTips$1
+//@   flag noframe
+//@   requires [sort_calls_it_on_positions_of_the_list_of_live_tips] 0 <= i && i < len(tips) && 0 <= j && j < len(tips) && tips[i] != nil && tips[j] != nil
+//@   ensures [tips_are_compared_by_their_own_names] result == (tips[i].name < tips[j].name)
 //@ func (*tree.Tree).SortedTips
+//@   flag countcalls
 //@   requires t != nil
 //@   allocates []*Node, iface
 //@   assigns nothing
+//@   call (*tree.Tree).Tips [the_tips_of_this_tree] a0 == t
 //@   ensures [elements_non_nil] forall k int :: {result[k]} 0 <= k && k < len(result) ==> result[k] != nil && allocated(result[k])
+//@   ensures [only_tips] forall k int :: {result[k]} 0 <= k && k < len(result) ==> len(result[k].neigh) == 1
 //@   ensures [fresh_storage] fresh_arr(result)
+//@   ensures [the_tip_list_is_taken_once_and_sorted_once] ghost(ncalls_Tips) == old(ghost(ncalls_Tips)) + 1 && ghost(ncalls_Slice) == old(ghost(ncalls_Slice)) + 1
 
 // UpdateTipIndex (properties C04, C06): writes the name index and the tips' bit positions only; on success every
 // tip of the sorted list is registered under its name with its rank as bit position
@@ -1045,9 +1055,16 @@ package tree
 // Generators (property C16)
 // ---------------------------------------------------------------------------
 
+// RerootFirst (property C16): the tree is re-rooted on a node that has exactly three neighbours, and on no other; when
+// there is none this is an error; the verdict of the re-rooting is the verdict returned
 //@ func (*tree.Tree).RerootFirst
 //@   flag treeop
+//@   flag noframe
+//@   flag countcalls
 //@   requires t != nil
+//@   call (*tree.Tree).Reroot [the_new_root_is_a_node_of_this_tree_with_exactly_three_neighbours] a0 == t && a1 == n && len(n.neigh) == 3 && ghost(ncalls_Reroot) == old(ghost(ncalls_Reroot))
+//@   ensures [no_inner_node_with_three_neighbours_is_an_error] ghost(ncalls_Reroot) == old(ghost(ncalls_Reroot)) ==> result != nil
+//@   return [the_verdict_of_the_rerooting_is_returned] result == err
 
 //@ define edgeok(e *Edge) bool = allocated(e) && allocated(e.left) && allocated(e.right) && e.left != e.right && e.length >= 0.0
 
@@ -1640,3 +1657,41 @@ package tree
 //@   assigns elems("*Node"), elems("*Edge")
 //@   call (*tree.Tree).sortNeighbors [the_whole_tree_is_sorted_from_its_root_with_no_origin] a0 == t && a1 == t.root && a2 == nil
 //@   ensures [still_as_many_neighbours_as_branches_everywhere] INV12()
+
+// Resolve / RemoveSingleNodes (properties C07, C15): the recursion starts at the root with no origin, and the branch
+// indexes are refreshed once, after it
+//@ func (*tree.Tree).Resolve
+//@   flag treeop
+//@   flag noframe
+//@   flag countcalls
+//@   requires t != nil
+//@   call (*tree.Tree).resolveRecur [the_whole_tree_is_resolved_from_its_root_with_no_origin] a0 == t && a1 == old(t.root) && a2 == nil
+//@   call (*tree.Tree).ReinitInternalIndexes [branch_indexes_are_refreshed_after_the_resolution] a0 == t && ghost(ncalls_resolveRecur) == old(ghost(ncalls_resolveRecur)) + 1
+//@   ensures [resolved_once_and_reindexed_once] ghost(ncalls_resolveRecur) == old(ghost(ncalls_resolveRecur)) + 1 && ghost(ncalls_ReinitInternalIndexes) == old(ghost(ncalls_ReinitInternalIndexes)) + 1
+//@ func (*tree.Tree).RemoveSingleNodes
+//@   flag treeop
+//@   flag noframe
+//@   flag countcalls
+//@   requires t != nil
+//@   call (*tree.Tree).removeSingleNodesRecur [the_whole_tree_is_walked_from_its_root_with_no_origin_and_no_branch] a0 == t && a1 == old(t.root) && a2 == nil && a3 == nil
+//@   call (*tree.Tree).ReinitInternalIndexes [branch_indexes_are_refreshed_after_the_removal] a0 == t && ghost(ncalls_removeSingleNodesRecur) == old(ghost(ncalls_removeSingleNodesRecur)) + 1
+//@   ensures [walked_once_and_reindexed_once] ghost(ncalls_removeSingleNodesRecur) == old(ghost(ncalls_removeSingleNodesRecur)) + 1 && ghost(ncalls_ReinitInternalIndexes) == old(ghost(ncalls_ReinitInternalIndexes)) + 1
+
+//@ define nexusidx(d int, n int) int = d <= 5 ? d : d - n
+//@ define nexustext(k int, count string, nw string) string = k == 0 ? "#NEXUS\n" : (k == 1 ? "BEGIN TAXA;\n" : (k == 2 ? " DIMENSIONS NTAX=" : (k == 3 ? count : (k == 4 ? ";\n" : (k == 5 ? " TAXLABELS" : (k == 6 ? ";\n" : (k == 7 ? "END;\n" : (k == 8 ? "BEGIN TREES;\n" : (k == 9 ? "  TREE tree1 = " : (k == 10 ? nw : (k == 11 ? "\n" : "END;\n")))))))))))
+// Tree.Nexus (property C13): the taxa block announces as many taxa as the tree has tips and lists the name of every tip,
+// each after one blank, in the order of the tip list; the trees block holds the Newick text of this very tree
+//@ func (*tree.Tree).Nexus
+//@   flag noframe
+//@   flag countcalls
+//@   requires t != nil
+//@   entry [well_formed_tree] t.root != nil && allocated(t.root) && INV12()
+//@   call (*tree.Tree).Newick [the_tree_written_is_this_tree] a0 == t
+//@   call (*tree.Tree).Tips [the_taxa_are_the_tips_of_this_tree] a0 == t
+//@   call strconv.Itoa [the_number_of_taxa_announced_is_the_number_of_tips] a0 == len(tips)
+//@   call (*bytes.Buffer).WriteString@L1 [every_tip_name_is_listed_after_one_blank_in_tip_order] a1 == " " + tips[rangeindex + 1].name
+//@   call (*bytes.Buffer).WriteString@L0 [fixed_text_the_count_and_the_newick_in_this_order] a1 == nexustext(nexusidx(ghost(ncalls_WriteString) - old(ghost(ncalls_WriteString)), len(tips)), itoa(len(tips)), newick)
+//@   call (*bytes.Buffer).WriteString@L0 [the_header_comes_first] ghost(ncalls_WriteString) - old(ghost(ncalls_WriteString)) <= 1 ==> a1 == (ghost(ncalls_WriteString) == old(ghost(ncalls_WriteString)) ? "#NEXUS\n" : "BEGIN TAXA;\n")
+//@   return [one_label_per_tip_between_the_fixed_parts] ghost(ncalls_WriteString) == old(ghost(ncalls_WriteString)) + 13 + len(tips)
+//@   loop 1
+//@     invariant [labels_so_far] ghost(ncalls_WriteString) == old(ghost(ncalls_WriteString)) + 6 + rangeindex + 1 && ghost(ncalls_Itoa) == old(ghost(ncalls_Itoa)) + 1 && ghost(ncalls_Newick) == old(ghost(ncalls_Newick)) + 1
